@@ -5,6 +5,7 @@ ID = 'C08'
 MODULE = _buffer.MODULE
 LEAN_SUBDIRS = _buffer.LEAN_SUBDIRS
 THEOREMS = ['AiutiVerif.Buffer.C08_quiet_period', 'AiutiVerif.Buffer.C08_quiet_period_prefix',
+            'AiutiVerif.Buffer.C08_burst_delivered_together',
             'AiutiVerif.Buffer.C08_serial_nonempty', 'AiutiVerif.Buffer.C08_serial_nonempty_prefix',
             'AiutiVerif.Buffer.C08_never_empty', 'AiutiVerif.Buffer.runProgram_K']
 ASSUMPTIONS = list(_buffer.ASSUMPTIONS_COMMON)
